@@ -714,6 +714,10 @@ def units(tier, seed):
     # (radius 0: the concentric-hexagon search of ner_net is used instead of
     # the scan over the route)
     add(1, 5, False, 1, 0, 3, src=(0, 0), split=3)
+    # ---- F4c: non-square tori (the two wrap-around moduli differ) with a
+    # dead chip on the wrap-around path
+    add(3, 4, True, 0, 20, 1, deadchip="any", src=((1, 2), (0, 0)), split=3)
+    add(4, 3, True, 0, 20, 1, deadchip="any", src=((2, 1), (0, 0)), split=3)
     # ---- F5: the has_wrap_around_links stub is exact ----------------------
     for (w, h) in ((1, 1), (1, 2), (2, 1), (2, 2), (2, 3)):
         wrap(w, h, K1, True, split=2)
